@@ -91,6 +91,23 @@ def corpus():
                "reqs": [rq(0, 0, "streaming"), rq(0, 2, "connecting"), rq(1, 1, "streaming"), rq(0, 1, "before")],
                "action": {"kind": "delete", "cl": 0, "eps": []},
                "after": [rq(0, 0), rq(1, 1), rq(1, 0)]})
+    # objects that are never admitted because of a server-name collision, created and then deleted while the
+    # owner of the name has requests in flight: (a) the object's NAME is an extra server name of cluster 0
+    cs.append({"clusters": [cl(0, 2, 1), cl(1, 1)], "ghosts": [{"name": "c0-alias0.example.com", "aliases": []}],
+               "reqs": [rq(0, 0, "streaming"), rq(0, 1, "connecting", 1), rq(0, 0, "before", 1), rq(1, 0, "streaming")],
+               "action": {"kind": "ghost", "cl": 0, "eps": []},
+               "after": [rq(0, 0), rq(0, 1, via=1), rq(1, 0)]})
+    # (b) the object claims another cluster's NAME as an extra server name
+    cs.append({"clusters": [cl(0, 2), cl(1, 1, 1)], "ghosts": [{"name": "x.example.com", "aliases": ["c0.example.com"]}],
+               "reqs": [rq(0, 0, "streaming"), rq(0, 1, "connecting"), rq(1, 0, "streaming", 1)],
+               "action": {"kind": "ghost", "cl": 0, "eps": []},
+               "after": [rq(0, 0), rq(0, -1), rq(1, 0)]})
+    # (c) the same extra server name is claimed by two objects (the second is rejected); (a) again with upper case
+    cs.append({"clusters": [cl(0, 1, 2), cl(1, 2)],
+               "ghosts": [{"name": "y.example.com", "aliases": ["c0-alias1.example.com"]}, {"name": "C0-ALIAS0.example.com", "aliases": []}],
+               "reqs": [rq(0, 0, "streaming", 2), rq(0, 0, "connecting", 1), rq(1, 1, "before")],
+               "action": {"kind": "ghost", "cl": 1, "eps": []},
+               "after": [rq(0, 0, via=1), rq(0, 0, via=2), rq(1, 0)]})
     # control: no removal, everything completes
     cs.append({"clusters": [cl(0, 2), cl(1, 1)],
                "reqs": [rq(0, 0, "before"), rq(0, 1, "connecting"), rq(1, 0, "streaming")],
@@ -109,9 +126,25 @@ def gen_scen(rng):
             for _ in range(rng.choice([1, 1, 2, 2, 3, 4])):
                 pre.append([rng.choice([1, 1, 2, 2, 0]) for _ in range(n)])
         clusters.append(cl(i, n, rng.choice([0, 0, 1, 2]), pre))
-    k = rng.below(20)
+    k = rng.below(24)
     tcl = rng.below(ncl)
-    if k < 9:
+    ghosts = []
+    if k >= 20 or rng.chance(1, 5):     # colliding objects that must be rejected
+        for _ in range(rng.choice([1, 1, 2])):
+            own = rng.below(ncl)
+            names = [clusters[own]["name"]] + clusters[own]["aliases"]
+            shape = rng.below(3)
+            if shape == 0 and clusters[own]["aliases"]:      # its name is an extra server name of a cluster
+                nm = rng.choice(clusters[own]["aliases"])
+                ghosts.append({"name": nm.upper() if rng.chance(1, 4) else nm, "aliases": []})
+            elif shape == 1:                                  # claims a cluster's name as extra server name
+                ghosts.append({"name": "g%d.example.com" % len(ghosts), "aliases": [clusters[own]["name"]]})
+            else:                                             # claims a name some cluster already serves
+                ghosts.append({"name": "g%d.example.com" % len(ghosts), "aliases": [rng.choice(names), "g%d-extra.example.com" % len(ghosts)]})
+    if k >= 20:
+        action = {"kind": "ghost", "cl": rng.below(len(ghosts)), "eps": []}
+        teps = []
+    elif k < 9:
         action = {"kind": "delete", "cl": tcl, "eps": []}
         teps = list(range(clusters[tcl]["eps"]))
     elif k < 18:
@@ -133,7 +166,7 @@ def gen_scen(rng):
 
     reqs = [one(["before", "connecting", "streaming"]) for _ in range(rng.randint(3, 8))]
     after = [one(["plain"]) for _ in range(rng.randint(2, 5))]
-    return {"clusters": clusters, "reqs": reqs, "action": action, "after": after}
+    return {"clusters": clusters, "ghosts": ghosts, "reqs": reqs, "action": action, "after": after}
 
 
 def generate(rng, tier, scale=1):
@@ -159,12 +192,17 @@ def coq_case(case, obs):
     try:
         if "panic" in obs:
             return "CBroken"
-        cls = clist(["(mkScl %d %s %d %s)" % (100 * i, clist([cZ(100 * i + j + 1) for j in range(len(c["aliases"]))]), c["eps"],
+        ids = {}
+
+        def nid(name):
+            return ids.setdefault(name.lower(), len(ids))
+        cls = clist(["(mkScl %d %s %d %s)" % (nid(c["name"]), clist([cZ(nid(a)) for a in c["aliases"]]), c["eps"],
                                               clist([clist([cZ(x) for x in (list(p) + [1] * c["eps"])[:c["eps"]]])
                                                      for p in c.get("pre", [])]))
                      for i, c in enumerate(case["clusters"])])
         a = case["action"]
-        act = {"delete": "(ADelete %d)" % a["cl"], "none": "ANone",
+        ghosts = clist(["(%d, %s)" % (nid(gh["name"]), clist([cZ(nid(x)) for x in gh["aliases"]])) for gh in case.get("ghosts", [])])
+        act = {"delete": "(ADelete %d)" % a["cl"], "none": "ANone", "ghost": "(AGhost %d)" % a["cl"],
                "remove": "(ARemove %d %s)" % (a["cl"], clist([cZ(e) for e in a["eps"]]))}[a["kind"]]
         ro = [dict(o) for o in obs["reqs"]]
         for o in ro:       # requests sent before the removal: "reached" is part of the observation
@@ -173,8 +211,8 @@ def coq_case(case, obs):
         co = clist(["(mkClobs %s %s %s)" % (clist([cbool(b) for b in c["resolves"]]), cbool(c["ctxdone"]),
                                             clist(["(mkEobs %s %s %s)" % (cbool(e["inmap"]), cbool(e["ctxdone"]), cZ(e["hits_delta"]))
                                                    for e in c["eps"]])) for c in obs["clusters"]])
-        return "(CScen %s %s %s %s %s %s %s)" % (
-            cls, clist([coq_req(r) for r in case["reqs"]]), act, clist([coq_req(dict(r, phase="plain")) for r in case["after"]]),
+        return "(CScen %s %s %s %s %s %s %s %s)" % (
+            cls, ghosts, clist([coq_req(r) for r in case["reqs"]]), act, clist([coq_req(dict(r, phase="plain")) for r in case["after"]]),
             clist([coq_robs(o) for o in ro]), clist([coq_robs(o) for o in ao]), co)
     except (KeyError, ValueError, TypeError, IndexError):
         return "CBroken"
@@ -192,6 +230,8 @@ def _victim(case, r):
 def nontrivial_key(case, obs):
     if case["action"]["kind"] == "none" or "reqs" not in obs:
         return None
+    if case["action"]["kind"] == "ghost":      # non-trivial when the owner of the collided name has requests in flight
+        return repr((case["clusters"], case["ghosts"], case["reqs"], case["action"])) if case["reqs"] else None
     vict = [r for r in case["reqs"] if _victim(case, r)]
     others = [r for r in case["reqs"] if not _victim(case, r)]
     if vict and (others or len(case["clusters"]) > 1 or case["clusters"][case["action"]["cl"]]["eps"] > len(case["action"]["eps"])):
@@ -202,7 +242,10 @@ def nontrivial_key(case, obs):
 def stats(case, obs):
     labs = ["action:" + case["action"]["kind"], "clusters:%d" % len(case["clusters"])]
     a = case["action"]
-    if a["kind"] != "none":
+    if a["kind"] == "ghost":
+        gh = case["ghosts"][a["cl"]]
+        labs.append("ghost:" + ("name-is-server-name" if not gh["aliases"] else "claims-taken-server-name"))
+    if a["kind"] in ("delete", "remove"):
         pre = case["clusters"][a["cl"]].get("pre", [])
         vict = a["eps"] if a["kind"] == "remove" else list(range(case["clusters"][a["cl"]]["eps"]))
         for e in vict:
